@@ -27,7 +27,7 @@ TIERS = {
 }
 RULE = ('case = history of ~25 extractions over one multiset: forms {list, 2 permutations, reversed, dict, dict in '
         'another insertion order, Series, one example repeated} x prior PRNG states x {seed, no seed}, with '
-        'warm-up calls in between; half the cases use Size settings that force the sampling branches. '
+        'warm-up calls in between; half the cases use Size settings that force the sampling branches; size=False with >4000 strings must draw nothing. '
         'Non-trivial = at least 3 distinct examples; distinct = fingerprint of the case.')
 ASSUMPTIONS = [
     'unseeded calls in which random.sample was actually used are random by design: only their seeded counterparts are compared',
